@@ -56,7 +56,7 @@ const (
 	envDir  = "VH_C17_DIR"
 	envOCC  = "VH_C17_OCC"
 	// generous ceilings: exceeding one is reported, never turned into a verdict by itself
-	stepCeiling = 25 * time.Second
+	stepCeiling = 15 * time.Second
 	killCeiling = 40 * time.Second
 )
 
